@@ -97,6 +97,8 @@ pub async fn spawn_process<P: Process>(
         let exit_reason = loop {
             match mailbox.recv().await {
                 Ok(msg) => {
+                    #[cfg(edp_rs_verif)]
+                    edp_client::verif::sched_point("process::before_handle").await;
                     if let Err(e) = process.handle_message(msg).await {
                         tracing::error!("Process {} error: {}", pid, e);
                         break OwnedTerm::Atom(Atom::new("error"));
